@@ -197,8 +197,12 @@ def r2(ctx):
     tests = [n for n in g.nodes.values() if n.kind == "test" and n.ast is not None and edge_for(n.ast, _has_entry)]
     iters = [n.id for n in g.nodes.values() if n.kind == "iter"]
     probe = lambda n: "get_storage_usages" in n.text(600)  # noqa: E731
+    all_iters = iters
     for t in tests:
         esc = None
+        # "the iteration": the loop over the allocation's locations that encloses the guard (not loops nested in the body)
+        loop = next((a for a in ancestors(t.ast) if isinstance(a, (ast.For, ast.AsyncFor, ast.While))), None)
+        iters = [i for i in all_iters if g.nodes[i].ast is loop] or all_iters
         for b in g.real_succ(t.id, edge_for(t.ast, _has_entry)):
             if b in snodes:
                 continue
@@ -261,8 +265,16 @@ def r3(ctx):
         return bool(ids) and all(any(v and _key(a) in ("status == Status.ROLLBACK", "Status.ROLLBACK == status", "status is Status.ROLLBACK", "Status.ROLLBACK is status")
                                      for a, v in _facts_at(g, i)) for i in ids)
 
-    rem = [c for c in f.calls() if isinstance(c.func, ast.Attribute) and c.func.attr in ("remove", "discard")
-           and root_attr(c.func.value) == "location_allocations" and unparse(c.func.value).endswith(".jobs")]
+    def _jobs_list(e):
+        """`self.location_allocations[..][..].jobs`, possibly through a local alias"""
+        if root_attr(e) == "location_allocations" and unparse(e).endswith(".jobs"):
+            return True
+        if isinstance(e, ast.Name):
+            ds = [d for d in defs_of(f, e.id) if d.kind == "assign" and d.value is not None]
+            return bool(ds) and all(root_attr(d.value) == "location_allocations" and unparse(d.value).endswith(".jobs") for d in ds)
+        return False
+
+    rem = [c for c in f.calls() if isinstance(c.func, ast.Attribute) and c.func.attr in ("remove", "discard") and _jobs_list(c.func.value)]
     clr = [c for c in f.calls() if isinstance(c.func, ast.Attribute) and c.func.attr == "clear" and unparse(c.func.value).endswith(".locations")]
     body = rem[0] if rem else (clr[0] if clr else f.node)
     loops = lambda c: [a for a in ancestors(c) if isinstance(a, ast.For) and unparse(a.iter).endswith(".locations")]  # noqa: E731
@@ -276,7 +288,7 @@ def r3(ctx):
     frees = [n.id for n in g.nodes.values() if any(isinstance(c.func, ast.Attribute) and c.func.attr == "_free_resources" for c in n.calls())]
     cleans = [n.id for n in g.nodes.values() if any(
         isinstance(c.func, ast.Attribute) and c.func.attr in ("clear", "remove", "discard") and
-        (unparse(c.func.value).endswith(".locations") or root_attr(c.func.value) == "location_allocations") for c in n.calls())]
+        (unparse(c.func.value).endswith(".locations") or root_attr(c.func.value) == "location_allocations" or _jobs_list(c.func.value)) for c in n.calls())]
     ctx.require(bool(frees) and bool(cleans), "C11.R3: release / clean-up nodes not found")
     bad = next((pth for c in cleans for pth in [g.path(c, frees)] if pth), None)
     ctx.ob("R3", "the release runs before the ROLLBACK clean-up empties the allocation's locations", bad is None, func=f, node=body, instance="rollback:after-release",
